@@ -252,7 +252,45 @@ fn sieve_final(a: &[&str]) -> Option<String> {
     ))
 }
 
+/// `final_step <n> <fbsize> <rel;rel;..>`: the real `final_step` on a constructed relation set, with the
+/// factor base `FBase::new(n, fbsize)`. Answer: `<divisors> || <fb primes> || <kernel>` (`-` = empty;
+/// kernel = the vectors the real kernel solver returned, as index lists joined by `;`).
+fn final_step_op(a: &[&str]) -> Option<String> {
+    use bnum::cast::CastFrom;
+    let n = uint_of(a.first()?)?;
+    let fbsize: u32 = a.get(1)?.parse().ok()?;
+    let rels: Vec<Relation> = if *a.get(2)? == "-" {
+        vec![]
+    } else {
+        a[2].split(';').map(parse_rel).collect::<Option<Vec<_>>>()?
+    };
+    let fb = yamaquasi::fbase::FBase::new(yamaquasi::Int::cast_from(n), fbsize);
+    vh::final_start();
+    let r = catch_unwind(AssertUnwindSafe(|| {
+        relations::final_step(&n, &fb, &rels, Verbosity::Silent)
+    }));
+    let log = vh::final_take();
+    let Ok(divs) = r else {
+        return Some("panic".to_string());
+    };
+    let kernel = log
+        .iter()
+        .rev()
+        .find_map(|t| t.strip_prefix("kernel|"))
+        .unwrap_or("");
+    let dash = |s: &str| if s.is_empty() { "-".to_string() } else { s.to_string() };
+    Some(format!(
+        "{} || {} || {}",
+        show_list(&divs),
+        show_list(&fb.primes),
+        dash(kernel)
+    ))
+}
+
 pub fn handle(op: &str, a: &[&str]) -> Option<String> {
+    if op == "final_step" {
+        return final_step_op(a);
+    }
     if op == "sieve_history" {
         return sieve_history(a);
     }
@@ -285,6 +323,22 @@ pub fn handle(op: &str, a: &[&str]) -> Option<String> {
             };
             let (x, y) = relations::combine(&zn, &xs, &parse_factors(f)?);
             Some(format!("{x},{y}"))
+        }
+        // same as rs_history but only the counters are reported (long chains: the store dump is quadratic)
+        ("rs_history_stats", [n, fbsize, maxlarge, h]) => {
+            let full = run_history(
+                uint_of(n)?,
+                fbsize.parse().ok()?,
+                u64_of(maxlarge)?,
+                parse_history(h)?,
+            );
+            if full.starts_with("panic") {
+                return Some(full);
+            }
+            let tail = full.rsplit(" | ").next()?;
+            let cycles = tail.split(' ').next()?;
+            let stats = tail.rsplit(' ').next()?;
+            Some(format!("{cycles} {stats}"))
         }
         ("rs_history", [n, fbsize, maxlarge, h]) => Some(run_history(
             uint_of(n)?,
